@@ -87,7 +87,7 @@ def run(an: Analysis, rep):
     rep.stats.update(an.stats(interps))
     rep.run(r053, an, rep)
     rep.run(r05i, an, rep)
-    rep.run(r05k, an, rep)
+    rep.run(lambda a_, r_: r05k(a_, r_, output_order=True), an, rep)
     from .common import old_interpreter_rule
     rep.run(old_interpreter_rule, an, rep, "R05.V", ["normalize", "to_code", "from_code"])
     from .common import SharedRules
@@ -172,7 +172,7 @@ def r05i(an, rep):
         rep.add("R05.I", "constants are handed to CodeType as decoded", True, "code_data/_constants.py", "the encoder makes no copies of constant tuples (C12's R12.8 decides whether that is safe)", nontrivial=False)
 
 
-def r05k(an, rep, rule="R05.K2"):
+def r05k(an, rep, rule="R05.K2", output_order=False):
     """What the encoder hands to CodeType for a constant is that constant: the function that prepares constants (the one whose first arm re-encodes a nested CodeData)
     is folded over witness constants of every kind and must return an equal value of the same type at every level (a frozenset stays a frozenset: `x in {1, 2, 3}`
     with a tuple constant answers membership the same, but an unhashable left operand no longer raises TypeError)."""
@@ -206,6 +206,7 @@ def r05k(an, rep, rule="R05.K2"):
          frozenset({7, 15, 23}), frozenset({"x", b"y", None})]
     bad = []
     reordered = []
+    rebuilt_t = []
     for w in W:
         ev = ObjEval(resolve, extra={"CodeData": type("CodeData", (), {})})
         ev.module_assigns = target.module.assigns
@@ -222,10 +223,19 @@ def r05k(an, rep, rule="R05.K2"):
         # when hashes collide ({7, 15, 23}: 7, 15 and 23 share a slot in a table of 8): the program's `for x in {...}` would run in another order
         if isinstance(w, frozenset) and not any(isinstance(x, tuple) for x in w) and got is not w:
             reordered.append(w)
+        if isinstance(w, frozenset) and any(isinstance(x, tuple) for x in w) and got is not w:
+            rebuilt_t.append(w)
     rep.add(rule, f"{target.qual}::a frozenset constant without tuples is handed over as it is", not reordered, loc(target.module, target.node),
             "frozensets of scalars reach CodeType as the decoded objects (same iteration order)" if not reordered else
             f"the frozenset {set(reordered[0])!r} is rebuilt: a rebuilt set iterates in insertion order of its collision chains, the original in the order the compiler built it - for members whose "
             f"hashes collide (`for x in {{7, 15, 23}}`) the re-encoded program iterates in another order and prints something else")
+    if output_order:
+        # C05 only ('executing both gives the same output'): a frozenset that holds a tuple is rebuilt as well (the copy keeps CodeType from rewriting the
+        # tuples of the data in place - C12), and the copy need not iterate in the order of the original
+        rep.add(rule, f"{target.qual}::a frozenset constant that holds a tuple keeps its iteration order", not rebuilt_t, loc(target.module, target.node),
+                "frozensets that hold tuples reach CodeType as the decoded objects" if not rebuilt_t else
+                f"the frozenset {set(rebuilt_t[0])!r} is rebuilt from its members: the copy can iterate in another order than the set the compiler built (collision chains depend on the order of "
+                f"insertion) - `for x in {{(1, 2), 3, 4}}: print(x)` prints (1, 2) 3 4 before and 3 (1, 2) 4 after to_code()")
     rep.add(rule, f"{target.qual}::every kind of constant keeps its value and type", not bad, loc(target.module, target.node),
             f"{len(W)} witness constants (scalars, nested tuples, frozensets, tuples inside frozensets) come out equal and of the same type" if not bad else
             f"{bad[0]}: the re-encoded program loads another kind of object (`x in {{1, 2, 3}}` with a tuple instead of the frozenset: `[] in ...` returns False instead of raising TypeError, "
